@@ -360,7 +360,9 @@ def sim_toggle(src, sub, otl, closings, horizon, completion_ends_windows=True):
                     w = W.open_win()
                     c = closings[m[2] % len(closings)]
                     if c["dt"] is not None:
-                        loop.at(loop.now + c["dt"], lambda: W.close_win(w))
+                        # "sync": the closing fires inside its own subscribe call - a zero-length window, closed at
+                        # the instant it opens (like dt=0 it may still straddle the burst of that instant)
+                        loop.at(loop.now + (0 if c["dt"] == "sync" else c["dt"]), lambda: W.close_win(w))
                 else:
                     W.outer_end = [loop.now, m[1], _term_payload(m)]
 
@@ -423,7 +425,9 @@ def sim_group_join(left, right, sub, ldur, rdur, horizon):
                         st["replayed"] += 1
                     c = ldur[m[2] % len(ldur)]
                     if c["dt"] is not None:
-                        loop.at(loop.now + c["dt"], lambda: W.close_win(w))
+                        # "sync": the closing fires inside its own subscribe call - a zero-length window, closed at
+                        # the instant it opens (like dt=0 it may still straddle the burst of that instant)
+                        loop.at(loop.now + (0 if c["dt"] == "sync" else c["dt"]), lambda: W.close_win(w))
                 elif W.outer_end is None:
                     W.outer_end = [loop.now, "C", None]
 
@@ -459,10 +463,13 @@ def sim_group_join(left, right, sub, ldur, rdur, horizon):
 # grouping machine (C19)
 
 
-def sim_group_by_until(src, sub, keyfn, elemfn, durations, horizon):
+def sim_group_by_until(src, sub, keyfn, elemfn, durations, horizon, echo=0):
     """group_by_until: src payloads are python values (not canon); keyfn/elemfn are the pure functions;
     durations: list of {"dt": int|None}, the j-th created group uses durations[j % len] (None: never).
-    Key identity is Python dict identity (== and hash)."""
+    Key identity is Python dict identity (== and hash).
+    echo=n: the first n group *expiries* are answered, synchronously from the expiring group's completion, by a new
+    source element equal to that group's key (identity key function): it arrives after its group expired, so it
+    opens a new group."""
     from .values import canon
 
     def sim(ch):
@@ -470,8 +477,9 @@ def sim_group_by_until(src, sub, keyfn, elemfn, durations, horizon):
         loop.now = sub
         live = {}
         groups = []
-        res = {"outer_end": None, "recreated": 0, "open_at_error": 0}
+        res = {"outer_end": None, "recreated": 0, "open_at_error": 0, "echoed": 0}
         seen = {}
+        budget = [echo]
 
         def on_src(m):
             if m[1] == "N":
@@ -492,6 +500,10 @@ def sim_group_by_until(src, sub, keyfn, elemfn, durations, horizon):
                             if live.get(k) is g:
                                 del live[k]
                                 g["end"] = [loop.now, "C", None]
+                                if budget[0] > 0:
+                                    budget[0] -= 1
+                                    res["echoed"] += 1
+                                    on_src([loop.now, "N", k])
 
                         loop.at(loop.now + d["dt"], fire)
                 g["items"].append([loop.now, canon(elemfn(x))])
